@@ -1035,3 +1035,31 @@ mod tests {
         Ok(())
     }
 }
+
+/// Verification hooks (compiled only with `--cfg chrono_verif`): canonical text dump of a rule.
+#[cfg(chrono_verif)]
+impl TransitionRule {
+    pub(super) fn verif_dump(&self) -> String {
+        fn day(d: &RuleDay) -> String {
+            match d {
+                RuleDay::Julian1WithoutLeap(n) => format!("J{}", n),
+                RuleDay::Julian0WithLeap(n) => format!("{}", n),
+                RuleDay::MonthWeekday { month, week, week_day } => {
+                    format!("M{}.{}.{}", month, week, week_day)
+                }
+            }
+        }
+        match self {
+            TransitionRule::Fixed(t) => format!("fixed({})", t.verif_dump()),
+            TransitionRule::Alternate(a) => format!(
+                "alt(std=({}),dst=({}),start={}/{},end={}/{})",
+                a.std.verif_dump(),
+                a.dst.verif_dump(),
+                day(&a.dst_start),
+                a.dst_start_time,
+                day(&a.dst_end),
+                a.dst_end_time
+            ),
+        }
+    }
+}
